@@ -70,7 +70,8 @@ FailsPair(r) ==
                                /\ r.sgn \in {1, -1}
                                /\ (r.rel = "add" => r.sgn = 1)
                                /\ (r.rel = "scale" => r.c = 0)
-                               /\ r.n_compared > 0 /\ Len(r.probes) >= 2)
+                               /\ r.n_compared >= 0
+                               /\ (r.n_compared > 0 => Len(r.probes) >= 2))
     \o Clause(tag \o "_bkg", /\ r.dev_bkg <= Tol
                              /\ \A k \in 1..Len(r.probes) :
                                    AffineBkgOK(r.probes[k][1], r.probes[k][2], r.sgn, r.c))
